@@ -71,6 +71,9 @@ def gen_raw(seed):
     rng = np.random.default_rng(seed)
     n = int(rng.integers(1, 81))
     nc = int(rng.integers(1, 6))
+    wide = seed[-1] % 25 == 11
+    if wide:
+        nc = [96, 256, 384][int(rng.integers(0, 3))]        # wide probes: channel ids far larger than the number of channels asked for
     dt = RDT[int(rng.integers(0, 3))]
     be = ['flat', 'flat', 'cbin', 'npy', 'array'][int(rng.integers(0, 5))]
     A = L.unique_cells(n, nc, dt)
@@ -114,7 +117,7 @@ def gen_raw(seed):
     extra = rng.integers(0, n, size=int(rng.integers(0, 6)) if not many else 2300).tolist()
     samples = np.sort(np.array(must + extra)).astype(SDT[int(rng.integers(0, 4))])
     ns = len(samples)
-    nloc = int(rng.integers(1, nc + 2))
+    nloc = int(rng.integers(1, nc + 2)) if not wide else int(rng.integers(2, 6))
     # per-spike channel rows (distinct channels then -1 padding)
     rows = []
     for _ in range(ns):
@@ -124,7 +127,7 @@ def gen_raw(seed):
             ch[int(rng.integers(0, nloc))] = -1
             ch = sorted(ch, key=lambda c: c == -1)
         rows.append(ch)
-    common = rng.permutation(nc)[:int(rng.integers(1, nc + 1))].tolist()
+    common = rng.permutation(nc)[:int(rng.integers(1, (nc if not wide else 5) + 1))].tolist()
     if rng.random() < 0.4:
         common.insert(int(rng.integers(0, len(common) + 1)), -1)
     factor = FACTORS[int(rng.integers(0, 5))]
@@ -243,6 +246,10 @@ def _raw(case, ctx, d):
         for q in range(3):
             order = rng.permutation(len(ids))[:int(rng.integers(1, len(ids) + 1))]
             qch = rng.permutation(g['nc'])[:int(rng.integers(1, g['nc'] + 1))]
+            if g['nc'] > 16:
+                # a few channels of a wide probe, in no particular order: those of one stored spike plus strangers
+                r0 = rows[order[0]]
+                qch = rng.permutation(np.unique(np.r_[r0[r0 >= 0], rng.permutation(g['nc'])[:2]]))
             r = call(get_spike_waveforms, ids[order], qch, store, nsw) if len(order) % 2 else call(get_spike_waveforms, ids[order], qch, spike_waveforms=store, n_samples_waveforms=nsw)
             fc = dict(feats, route='store')
             if not r.ok:
